@@ -17,7 +17,10 @@ COQ = os.path.join(VERIF, "coq")
 CACHE = os.path.join(VERIF, ".cache")
 TARGET = os.path.join(CACHE, "target")
 HARNESS_DIR = os.path.join(VERIF, "harness")
-EVIDENCE = os.path.join(VERIF, "evidence")
+# evidence/ is committed and must describe runs against /repo itself: a run against a scratch copy
+# of the repository (VERIF_REPO=<seeded worktree>) writes its evidence under .cache/ instead
+EVIDENCE = (os.path.join(VERIF, "evidence") if os.path.realpath(REPO) == "/repo"
+            else os.path.join(CACHE, "scratch-evidence"))
 REPLAYS = os.path.join(VERIF, "replays")
 NPROC = int(os.environ.get("VERIF_JOBS", "16"))
 CFG = "jrsonnet_verif"
